@@ -56,7 +56,10 @@ func TestVP_C20_Forward(t *testing.T) {
 			if k == "" {
 				continue
 			}
-			cfg.Endpoints = append(cfg.Endpoints, forward.Endpoint{Key: k, Target: fmt.Sprintf("127.0.0.1:%d", vpC20Lis[j].Port)})
+			// targets are written with an address literal or with a host name; several endpoints
+			// may share the host and differ only in the port
+			host := rapid.SampledFrom([]string{"127.0.0.1", "127.0.0.1", "localhost"}).Draw(t, fmt.Sprintf("host%d", j))
+			cfg.Endpoints = append(cfg.Endpoints, forward.Endpoint{Key: k, Target: fmt.Sprintf("%s:%d", host, vpC20Lis[j].Port)})
 			target[k] = j
 			desc = append(desc, fmt.Sprintf("%q->L%d", k, j))
 		}
@@ -154,7 +157,8 @@ func TestVP_C20_Concurrent(t *testing.T) {
 		for j := 0; j < ne; j++ {
 			k := fmt.Sprintf("key%d", j)
 			keys = append(keys, k)
-			cfg.Endpoints = append(cfg.Endpoints, forward.Endpoint{Key: k, Target: fmt.Sprintf("127.0.0.1:%d", vpC20Lis[j].Port)})
+			host := rapid.SampledFrom([]string{"127.0.0.1", "localhost"}).Draw(t, fmt.Sprintf("host%d", j))
+			cfg.Endpoints = append(cfg.Endpoints, forward.Endpoint{Key: k, Target: fmt.Sprintf("%s:%d", host, vpC20Lis[j].Port)})
 		}
 		w := harn.NewWriter()
 		h := forward.NewHandler(cfg, identity.AgentID{9}, w)
